@@ -29,7 +29,8 @@ type histCase struct {
 }
 
 type histStep struct {
-	Op     string      `json:"op"` // route | headers | req
+	Op     string      `json:"op"` // route | headers | req | autohead (AutoHead(On): routes are registered through Route/Routes/Any, which never add a HEAD twin, so the switch must not change any outcome)
+	On     bool        `json:"on,omitempty"`
 	Method string      `json:"method,omitempty"`
 	Route  string      `json:"route,omitempty"`
 	Ref    int         `json:"ref,omitempty"`   // headers: index (among route steps) of the Route object
@@ -200,6 +201,20 @@ func genHistCase(rng *rand.Rand, prop string) *histCase {
 		switch {
 		case len(routes) == 0 || (x < 3 && len(routes) < 10):
 			rt := gen.GenRoute(rng, pool, cfg)
+			if rng.Intn(40) == 0 {
+				// a deep route: 254-300 static segments, possibly ending in a placeholder
+				n := []int{254, 255, 256, 257, 300}[rng.Intn(5)]
+				rt = &rmodel.Route{}
+				for k := 0; k < n; k++ {
+					rt.Segs = append(rt.Segs, rmodel.Segment{Elems: []rmodel.Elem{{Lit: "s"}}})
+				}
+				if rng.Intn(2) == 0 {
+					rt.Segs[n-1] = rmodel.Segment{Elems: []rmodel.Elem{{Bind: "deep"}}}
+				}
+			}
+			if rng.Intn(12) == 0 {
+				c.Steps = append(c.Steps, histStep{Op: "autohead", On: rng.Intn(3) != 0})
+			}
 			m := methodsOf[rng.Intn(len(methodsOf))]
 			c.Steps = append(c.Steps, histStep{Op: "route", Method: m, Route: rt.Render()})
 			routes = append(routes, rt)
@@ -250,6 +265,8 @@ func genHistCase(rng *rand.Rand, prop string) *histCase {
 				m = l[rng.Intn(len(l))]
 			}
 			switch rng.Intn(15) {
+			case 4:
+				m = "HEAD"
 			case 0:
 				m = routerMethods[rng.Intn(len(routerMethods))]
 			case 1:
@@ -267,7 +284,7 @@ func genHistCase(rng *rand.Rand, prop string) *histCase {
 
 func runHist(r *core.Run, prop string) {
 	if prop == "C09" {
-		r.Rule("router histories (6-35 steps): registrations (static-biased pools; fully static, optional static, dynamic routes; single methods, method lists through Routes() and Any), Headers() calls on 30-70% of routes and again later (0-2 pairs, empty set, empty expression, never-matching expression, differently-cased names), requests with route-directed header sets (matching / non-matching / empty / missing values). Oracle: reference dispatch model restricted to routes whose latest constraint set passes (non-empty value matched by the expression, for every constrained header). non-trivial = distinct requests whose outcome differs from the outcome of the same request with all constraints satisfied (the constraint decided)")
+		r.Rule("router histories (6-35 steps): registrations (static-biased pools; fully static, optional static, dynamic routes; single methods, method lists through Routes() and Any; one route in forty is 254-300 segments deep; AutoHead switched at random points - registrations go through Route/Routes/Any, which add no HEAD twin), Headers() calls on 30-70% of routes and again later (0-2 pairs, empty set, empty expression, never-matching expression, differently-cased names), requests with route-directed header sets (matching / non-matching / empty / missing values). Oracle: reference dispatch model restricted to routes whose latest constraint set passes (non-empty value matched by the expression, for every constrained header). non-trivial = distinct requests whose outcome differs from the outcome of the same request with all constraints satisfied (the constraint decided)")
 	} else {
 		r.Rule("router histories interleaving registrations (static, optional-static, dynamic shadowing candidates, several methods and Any), Headers() calls and requests; request paths include every route's text used as a path (raw, canonical, with '?'), instances, extra leading slashes, trailing slash, empty path, escapes. Oracle: route.Tree.Match on a twin tree per method that receives the same AddRoute / SetHeaderMatcher calls in the same order; with hooks the whole shortcut table is enumerated after every step and compared with tree matching on the router's own tree. non-trivial = distinct requests answered through the shortcut (path equals a table key) or differing from a key only by slashes or '?'")
 	}
@@ -398,6 +415,9 @@ func judgeHist(w *core.W, c *histCase, prop string) {
 				o.fr = nil
 			}
 			objs = append(objs, o)
+		case "autohead":
+			f.AutoHead(st.On)
+			w.Count("autohead-switched")
 		case "headers":
 			if st.Ref >= len(objs) || objs[st.Ref] == nil || objs[st.Ref].fr == nil {
 				continue
